@@ -9,7 +9,7 @@ for d in /verif/seeded/*${1}*/; do
   cd $WT && git checkout -q --detach main 2>/dev/null; git checkout -q -- . && git clean -fdq
   git apply $d/patch.diff || { echo "SEEDED $name: patch does not apply"; continue; }
   s=$(date +%s)
-  out=$(cd /verif && timeout 1500 ./bin/gosym check -prop $prop -tier quick -repo $WT -workers 16 2>&1)
+  out=$(cd /verif && GOSYM_OUT=/tmp/eval-out timeout 1500 ./bin/gosym check -prop $prop -tier quick -repo $WT -workers 16 2>&1)
   code=$?
   e=$(( $(date +%s)-s ))
   viol=$(echo "$out" | grep -a -c "^VIOLATION")
